@@ -299,6 +299,49 @@ def h11c_pre(which, commits_after):
     return 0 <= which < 26 and 0 <= commits_after <= 2
 
 
+def h11c2(which: int, remove: bool) -> bool:
+    """Nodes copied because a delegation above them appeared / disappeared are frozen like every other node of a committed version."""
+    kind = S("zone")
+    z = make_zone(kind)
+    sub, glue = dns.name.from_text("sub", None), dns.name.from_text("g.sub", None)
+    nsr = dns.rdataset.from_text("IN", "NS", 300, "ns.example.")
+    with z.writer() as w:
+        w.add(glue, TXT)
+        if remove:
+            w.add(sub, nsr)
+    with z.writer() as w:
+        if remove:
+            w.delete(sub, dns.rdatatype.NS)
+        else:
+            w.add(sub, nsr)
+    r = z.reader()
+    node = r.version.nodes.get(glue)   # the raw node of the frozen version (txn.get_node() would re-wrap it)
+    hit("reached")
+    if node is None:
+        return False
+    calls = [
+        lambda: node.replace_rdataset(nsr), lambda: node.delete_rdataset(dns.rdataclass.IN, dns.rdatatype.TXT),
+        lambda: node.find_rdataset(dns.rdataclass.IN, dns.rdatatype.A, create=True),
+        lambda: node.get_rdataset(dns.rdataclass.IN, dns.rdatatype.A, create=True),
+        lambda: node.rdatasets.append(nsr) if hasattr(node.rdatasets, "append") else (_ for _ in ()).throw(TypeError("tuple")),
+        lambda: node.rdatasets[0].add(TXT[0]) if True else None,
+        lambda: setattr(node, "rdatasets", []),
+    ]
+    try:
+        calls[which]()
+        raised = False
+    except (TypeError, AttributeError, dns.exception.DNSException, KeyError, ValueError):
+        raised = True
+    if not raised:
+        return False
+    now = r.get(glue, dns.rdatatype.TXT)
+    return now == TXT and len(r.get_node(glue).rdatasets) == 1
+
+
+def h11c2_pre(which, remove):
+    return 0 <= which < 7
+
+
 HARNESSES = [
     Harness("H11a", h11a, h11a_pre, h11a_shards, kind="finite selection of events, exhaustive",
             encodes=["dns.versioned.Zone.reader", "dns.versioned.Zone._prune_versions_unlocked", "dns.versioned.Zone.set_max_versions",
@@ -316,4 +359,8 @@ HARNESSES = [
             encodes=["dns.zone.ImmutableVersion.__init__", "dns.zone.ImmutableVersionedNode", "dns.rdataset.ImmutableRdataset", "dns.immutable.Dict"],
             bound="26 mutators reachable from a reader (transaction, version, node map, node, rdataset, rdata, name) x 0..2 commits after the reader opened",
             stubs=["E6"], outside="attributes not in the list"),
+    Harness("H11c2", h11c2, h11c2_pre, lambda tier: [{"zone": z, "_timeout": 600, "_path_timeout": 60} for z in ("versioned", "btree")],
+            kind="enumeration carried on the solver's paths",
+            encodes=["dns.btreezone.WritableVersion.update_glue_flag", "dns.btreezone.ImmutableVersion.__init__", "dns.zone.ImmutableVersion.__init__"],
+            bound="a node beneath a name that gains / loses an NS rrset in the last commit; 7 mutators on the raw node of the frozen version", stubs=["E6"], outside=""),
 ]
